@@ -2,4 +2,5 @@ Require Import ExtrOcamlBasic.
 From Eupsv Require Import Base.Base Model.Paths Model.Records.
 Extraction "model.ml" keep_types vf_read vf_lines vf_write_gen add_flavor db_declare_gen db_find
   cf_read cf_lines cf_set_version canon_gen resolve_paths mk_product trim_info_gen
-  vf_classify cf_classify make_product cf_get_version cf_remove_version vf_remove_flavor.
+  vf_classify cf_classify make_product cf_get_version cf_remove_version vf_remove_flavor
+  realpath ex_via env0.
